@@ -276,6 +276,7 @@ type Group struct {
 	Plain        []Plain `json:"plain,omitempty"`
 	Groups       []Group `json:"groups,omitempty"`
 	RawTag       *string `json:"rawtag,omitempty"` // tag of the group's struct field, verbatim (nested groups only)
+	OptsLast     bool    `json:"optslast,omitempty"` // the option fields are declared after the nested group fields
 }
 
 type PosArg struct {
@@ -630,9 +631,13 @@ func (bl *builder) groupType(g *Group, host *Cmd) reflect.Type {
 			fs = append(fs, reflect.StructField{Name: p.Field, Type: plainType(p.Kind)})
 		}
 	}
+	var optFields []reflect.StructField
 	for i := range g.Options {
 		o := &g.Options[i]
-		fs = append(fs, reflect.StructField{Name: o.Field, Type: o.Kind.Type(), Tag: reflect.StructTag(o.Tag())})
+		optFields = append(optFields, reflect.StructField{Name: o.Field, Type: o.Kind.Type(), Tag: reflect.StructTag(o.Tag())})
+	}
+	if !g.OptsLast {
+		fs = append(fs, optFields...)
 	}
 	for i := range g.Plain {
 		if p := &g.Plain[i]; i%2 == 1 {
@@ -660,6 +665,9 @@ func (bl *builder) groupType(g *Group, host *Cmd) reflect.Type {
 			tag = *sg.RawTag
 		}
 		fs = append(fs, reflect.StructField{Name: sg.Field, Type: bl.groupType(sg, nil), Tag: reflect.StructTag(tag)})
+	}
+	if g.OptsLast {
+		fs = append(fs, optFields...)
 	}
 	if host != nil {
 		if host.Pos != nil {
